@@ -52,7 +52,21 @@ Theorem C10_modify_shadow_refuted :
   check cfg_pre_modify wit_modify_shadow = true /\ no_const_write_b wit_modify_shadow = false /\
   check cfg_fixed wit_modify_shadow = false.
 Proof. exact modify_shadow_refuted. Qed.
-(* what `modify x` is held to: the lexical binding AND the binding captured from outside the current function *)
+(* ... and the repair of the regression that fix introduced (fixes/modify-after-modify-regression.diff): a second
+   `modify` of the same captured variable, from a nested block after a read, is accepted again (cfg_745 = /repo
+   745d438 refused it), while the shadowing witness stays rejected *)
+Check two_modifies_accepted :
+  check cfg_fixed wit_two_modifies = true /\ no_const_write_b wit_two_modifies = true /\
+  check cfg_745 wit_two_modifies = false /\
+  check cfg_fixed wit_modify_shadow = false /\ check cfg_745 wit_modify_shadow = false.
+Theorem C10_two_modifies_accepted :
+  check cfg_fixed wit_two_modifies = true /\ no_const_write_b wit_two_modifies = true /\
+  check cfg_745 wit_two_modifies = false /\
+  check cfg_fixed wit_modify_shadow = false /\ check cfg_745 wit_modify_shadow = false.
+Proof. exact two_modifies_accepted. Qed.
+
+(* what `modify x` is held to: the lexical binding AND the DECLARATION captured from outside the current function
+   (entries registered by earlier `modify` statements are aliases, not declarations) *)
 Check (fun ss x => eq_refl : resolves_const ss (TCap x) = is_const (lookup_outer ss x)).
 
 (* value stability on the evaluation model (closure-free programs): any execution, any values written *)
